@@ -242,9 +242,26 @@ Section Containers.
                      | None => None
                      end
     end.
-  (** [None] = the load fails (invalid name in a plist, no layer in directory "glyphs") *)
+  (** a single normal path component ([plain_name] of layer.rs, fixes 8d15b4b / 59e280a) *)
+  Definition plain_name (p : str) : bool :=
+    negb (isnil p) && negb (memb 47%N p) && negb (str_eqb p [DOT]) && negb (str_eqb p [DOT; DOT]).
+  (** the checks of [LayerContents::load] on layercontents.plist (fix 83f6c18: names unique,
+      directories unique — compared exactly —, "public.default" only in "glyphs") and of
+      [Layer::load_impl] on contents.plist (fix afd801a: file names plain and unique, exactly) *)
+  Definition dlayer_files_ok (d : dlayer) : bool :=
+    bool_decide (map_Forall (fun _ f => plain_name f = true) d.2) &&
+    bool_decide (NoDup (map_to_list d.2).*2).
+  Definition disk_checked (d : disk) : bool :=
+    forallb (fun x => plain_name x.1.2) d &&
+    bool_decide (NoDup ((fun x : dlayer => x.1.1) <$> d)) &&
+    bool_decide (NoDup ((fun x : dlayer => x.1.2) <$> d)) &&
+    forallb (fun x : dlayer => negb (bool_decide (x.1.1 = DEFAULT_LAYER_NAME)) ||
+                               bool_decide (x.1.2 = DEFAULT_GLYPHS_DIRNAME)) d &&
+    forallb dlayer_files_ok d.
+  (** [None] = the load fails (invalid name in a plist, a failed check, no layer in "glyphs") *)
   Definition load (d : disk) : option state :=
     if negb (forallb dlayer_names_valid d) then None
+    else if negb (disk_checked d) then None
     else match split_default (load_layer <$> d) with
          | None => None
          | Some (x, rest) => Some (State (x :: rest) (list_to_set ((fun l => lower (l_path l)) <$> rest)))
@@ -341,13 +358,10 @@ Section Containers.
   Definition report (s : state) : list (str * str * gset str * gmap str str) :=
     (fun l => (l_name l, l_path l, dom (l_glyphs l), l_contents l)) <$> layers s.
 
-  (** a disk tree whose layercontents.plist / contents.plist are well formed: distinct layer
-      names, distinct directories (ignoring case), "public.default" only in "glyphs",
-      distinct glif file names (ignoring case) within a layer *)
+  (** what loading does not check: directories, and glif file names within a layer, that are
+      equal ignoring case (known finding load-case-clash) *)
   Definition wf_disk (d : disk) : Prop :=
-    NoDup ((fun x => x.1.1) <$> d) /\
     NoDup ((fun x => lower x.1.2) <$> d) /\
-    (forall x, x ∈ d -> x.1.2 <> DEFAULT_GLYPHS_DIRNAME -> x.1.1 <> DEFAULT_LAYER_NAME) /\
     (forall x g1 g2 q1 q2, x ∈ d -> x.2 !! g1 = Some q1 -> x.2 !! g2 = Some q2 ->
                            lower q1 = lower q2 -> g1 = g2).
 
@@ -361,6 +375,21 @@ Section Containers.
                            lower q1 = lower q2 -> g1 = g2) /\
     NoDup ((fun l => lower (l_path l)) <$> tail (layers s)) /\
     NoDup (l_path <$> layers s).
+
+  (** every file name / directory in the containers was produced by the file-name function for
+      the current glyph / layer name (true of fonts built through the API; a loaded font keeps
+      the names found on disk) *)
+  Definition assigned_layer (l : layer) : Prop :=
+    (forall g q, l_contents l !! g = Some q -> exists taken, glif_name g taken = Some q) /\
+    (l_path l = DEFAULT_GLYPHS_DIRNAME \/ exists taken, dir_name (l_name l) taken = Some (l_path l)).
+  Definition AInv (s : state) : Prop := Forall assigned_layer (layers s).
+
+  (** every file name / directory is a single normal path component (what the checks at load
+      demand; true of assigned names and of names that passed those checks) *)
+  Definition plain_layer (l : layer) : Prop :=
+    (forall g q, l_contents l !! g = Some q -> plain_name q = true) /\
+    (l_path l = DEFAULT_GLYPHS_DIRNAME \/ plain_name (l_path l) = true).
+  Definition Plain (s : state) : Prop := Forall plain_layer (layers s).
 
   (** the operation may change the file name of glyph [g] in layer [ln] / the directory of
       layer [ln]: it names them (or clears / filters / replaces their container) *)
